@@ -161,23 +161,32 @@ class Unit:
         return cname
 
     def tr_const_expr(self, val, scope):
-        def rep(m):
-            w = m.group(0)
-            for k in ((scope + '::' + w) if scope else None, w):
-                if k and k in self.tr.consts:
-                    return self.tr.consts[k]
-            if re.match(r'^(0[xX][0-9a-fA-F]+|\d+)[uUlL]*$', w) or w in ('ULL', 'sizeof'):
-                return w
-            if w in self.tr.typemap:
-                return self.tr.typemap[w]
-            raise ExtractError('constant expression %r references unknown %r' % (val, w))
-        v = val.replace('::', '__SC__')
-        def rep2(m):
-            w = m.group(0).replace('__SC__', '::')
-            if w in self.tr.consts:
-                return self.tr.consts[w]
-            return rep(re.match(r'.*', w))
-        return re.sub(r'[A-Za-z_][\w]*(?:__SC__[A-Za-z_]\w*)*', rep2, v)
+        toks = tokenize(val)
+        out = []
+        i = 0
+        while i < len(toks):
+            k, t = toks[i]
+            if k == 'id':
+                names = [t]
+                j = i + 1
+                while j + 1 < len(toks) and toks[j][1] == '::' and toks[j + 1][0] == 'id':
+                    names.append(toks[j + 1][1]); j += 2
+                q = '::'.join(names)
+                cands = [q] + ([scope + '::' + q] if scope else [])
+                for c in cands:
+                    if c in self.tr.consts:
+                        out.append(self.tr.consts[c]); break
+                else:
+                    if q in self.tr.typemap:
+                        out.append(self.tr.typemap[q])
+                    elif q in ('sizeof', 'int', 'unsigned', 'long', 'U64'):
+                        out.append(q)
+                    else:
+                        raise ExtractError('constant expression %r references unknown %r' % (val, q))
+                i = j
+            else:
+                out.append(t); i += 1
+        return ''.join(out)
 
     def consts(self, relpath, scope, names, prefix=None, ctype=None):
         for n in names:
@@ -283,6 +292,26 @@ class Unit:
         for n in names:
             self.tr._pt_idents.add(n)
             self.tr._pt_calls.add(n)
+
+    def uf_table(self, cname, ctype, dims, what, zero_row0=False):
+        """A table whose contents do not matter for the proofs (Zobrist keys, tunable values): modelled as an
+        uninterpreted function of its indices; every read in extracted code carries a bounds obligation."""
+        args = ', '.join('int' for _ in dims)
+        ps = ['i%d' % k for k in range(len(dims))]
+        bounds = ' && '.join('(%s) >= 0 && (%s) < %d' % (a, a, d) for a, d in zip(ps, dims))
+        self.chunks.append(('uf', '%s __CPROVER_uninterpreted_%s(%s);  /* %s: arbitrary table */\n'
+                            '#define UF_%s(%s) (__CPROVER_assert(%s, "bounds: index of %s"), __CPROVER_uninterpreted_%s(%s))\n'
+                            '#define %s_AT(%s) __CPROVER_uninterpreted_%s(%s)   /* for spec text */\n'
+                            % (ctype, cname, args, what, cname, ', '.join(ps), bounds, cname, cname, ', '.join('(%s)' % a for a in ps),
+                               cname, ', '.join(ps), cname, ', '.join('(%s)' % a for a in ps))))
+        if zero_row0:
+            # pinned fact about the real table: row 0 is all zero (checked by the unit against the initialiser)
+            self.chunks.append(('uf', '#undef UF_%s\n#undef %s_AT\n'
+                '#define UF_%s(i0, i1) (__CPROVER_assert((i0) >= 0 && (i0) < %d && (i1) >= 0 && (i1) < %d, "bounds: index of %s"), ((i0) == 0 ? (%s)0 : __CPROVER_uninterpreted_%s((i0), (i1))))\n'
+                '#define %s_AT(i0, i1) ((i0) == 0 ? (%s)0 : __CPROVER_uninterpreted_%s((i0), (i1)))\n'
+                % (cname, cname, cname, dims[0], dims[1], cname, ctype, cname, cname, ctype, cname)))
+        self.tr.uf_tables[cname] = len(dims)
+        self.notes.append('table %s modelled as uninterpreted function (%s)' % (cname, what))
 
     def stub(self, cname, proto):
         """External function with an *assumed* contract (listed in the evidence): prototype only."""
